@@ -9,6 +9,22 @@ Contracts on the real functions (every call is seen, also prysm-internal ones su
 Law monitors on observed outputs (no model): linearity, commutativity, impulse identity / translation, energy product;
 list == product, all-ones == identity, linear phase == translation, callable == array on the documented grid;
 MTF[c] == 1, MTF <= 1, point symmetry modulo n, |OTF| == MTF, OTF == MTF exp(i PTF).
+
+Hardening pass (blind-spot classes of HARDENING.md).  Every contract snapshots its array arguments *before* the call and
+judges the result against the snapshot, so a routine that writes into the caller's array cannot drag the oracle along.
+  A repeat / aliasing   the same argument objects passed again (same routine, another routine of the property, keyword form),
+                        in every memory layout (C, F, transposed view, strided slice, reversed view) and image dtype (float64,
+                        float32, int64/32/16, uint8, bool); transfer functions as list / tuple / 3-D ndarray stack of
+                        complex128 / complex64 / float64 / float32 / int64 arrays; explicit fx, fy ndarrays re-used; results the
+                        caller edits in place before calling again; conv == atf([sum(h) OTF(h)]) across the three routines
+  B histories           one PSF container through mtf/ptf/otf (all 9 ordered pairs) with its data reassigned / overwritten in
+                        place / edited in place / replaced by conv(data, pixel) / container deep-copied / shape changed / dx
+                        changed in between, judged against the array form and a fresh container; the array form edited in
+                        place; random longer sequences; conv with operands edited in place or other operands of the same
+                        shape in between; apply_transfer_functions on one shape while dx, shift and grid form change
+  C configuration       config.precision = 32 with float32 and float64 data (float32 tolerances), then the same routines on
+                        the same grids under precision 64 at full tolerance (keys carry /precision=32, /after-precision-32)
+  D regimes             1xN, Nx1, 2xN, Nx3 arrays up to N = 256 (quick) / 1024 (thorough)
 """
 import functools
 import math
@@ -16,7 +32,7 @@ import math
 import numpy as np
 
 from ..contracts import attach, detach_all
-from ..core import parity, shape_class
+from ..core import Ctx, parity, shape_class
 from ..refmodels import imaging as ref
 from ..util import precision
 
@@ -25,20 +41,33 @@ RULE = ('shapes enumerated smallest first (all (n0,n1) up to a bound incl. 1xN, 
         'x transfer-function list class (real / hermitian / generic complex arrays, callables of fx, fy, fx+fy, fr, fr+ft, '
         'prysm analytic FTs, mixed, all-ones, empty, linear phase) x shift convention x grid mode (from dx, explicit 1-D, '
         'explicit 2-D); a case is non-trivial when the array has >= 2 samples; distinct = distinct descriptor '
-        '(shape, classes, sub-seed)')
+        '(shape, classes, sub-seed).  Hardening workloads: repeat (same argument objects again, x 5 memory layouts x 7 image '
+        'dtypes x 3 transfer-function containers x 5 transfer-function dtypes), histories (PSF container: 8 kinds of change x 9 '
+        'ordered routine pairs per shape, random sequences; conv: 5 kinds; apply_transfer_functions: dx/shift/grid sequences on '
+        'one shape), configuration (precision 32 with float32/float64 data, then 64 on the same grids), extreme aspect ratios')
 ASSUMPTIONS = ['origin sample of an axis of length n is index n//2 (C04 convention); the routines are FFT based so '
                'circular (roll) shifts are the exact model',
                'documented frequency grid of apply_transfer_functions: zero frequency at the centre sample (n//2) for '
                'shift=True and at sample [0,0] for shift=False (its docstring)',
                'for transfer functions that are not Hermitian-symmetric only the list==product law is checked (the real '
                'part of a genuinely complex image is a convention, not part of the statement)',
-               'explicit O(N^2) sums / DFT matrices are exact to ~1e-14 N; thresholds rtol 1e-10 (2e-4 for float32 input)']
+               'explicit O(N^2) sums / DFT matrices are exact to ~1e-14 N; thresholds rtol 1e-10 (2e-4 for float32 input '
+               'and for every call made while prysm.conf.config.precision is 32: a routine may then cast to single precision; '
+               'measured float32 round-off 3e-8..4e-7 of the scales used)',
+               'the routines are deterministic functions of the values of their arguments (they draw no random numbers), so a '
+               'second call with the same objects must reproduce the first and a used container must behave like a fresh one '
+               'holding the same data; the contracts judge against a copy of the arguments taken before the call',
+               'integer and boolean images are in the domain (the FFT promotes them); a PSF whose sum is zero after an integer '
+               'cast has no MTF and is excluded and counted']
 REQUIRED = ['conv.model', 'conv.linearity', 'conv.commutativity', 'conv.impulse-identity', 'conv.impulse-translation',
             'conv.energy', 'atf.model', 'atf.list-vs-product', 'atf.ones-identity', 'atf.linear-phase',
             'atf.callable-vs-array', 'mtf.dc', 'mtf.max', 'mtf.point-symmetry', 'otf.abs-vs-mtf', 'otf.arg-vs-ptf',
-            'otf.model']
+            'otf.model', 'repeat.cases', 'repeat.same-args', 'repeat.cross-routine', 'cross.conv-vs-atf-otf',
+            'otf.container-vs-array', 'history.otf-container', 'history.otf-array', 'history.conv', 'history.atf',
+            'precision32.cases', 'precision32-then-64.cases', 'regime.aspect']
 
 CTX = None
+WL = {}          # label of the workload that is driving the contracts right now (goes into contract witnesses)
 RT = 1e-10
 KEY_FFTSHIFT = 'C15/atf/shift=False/output-fftshifted'
 KEY_CGRID = 'C15/atf/shift=False/callable-on-centred-grid'
@@ -56,8 +85,17 @@ def par2(shape):
     return '|'.join(sorted(set(parity(s) for s in shape)))
 
 
+def p32():
+    from prysm.conf import config
+    return config.precision is np.float32
+
+
 def rtol_for(*arrays):
-    return 2e-4 if any(getattr(a, 'dtype', None) in (np.float32, np.complex64) for a in arrays) else RT
+    """float32 tolerance when any operand is single precision or prysm is configured for 32 bits (a routine may then
+    legitimately cast to config.precision); measured float32 round-off is 3e-8..4e-7 of the scales used."""
+    if p32() or any(getattr(a, 'dtype', None) in (np.float32, np.complex64, np.float16) for a in arrays):
+        return 2e-4
+    return RT
 
 
 # =========================================================================================== model helpers
@@ -113,11 +151,35 @@ def close(a, b, rtol, scale):
 
 
 # =========================================================================================== contracts
-def post_conv(token, args, kwargs, result):
+SNAP_MAX = 512 * 512
+
+
+def _snap(x):
+    """Copy of an array argument taken *before* the call: the models judge the result against what was passed in, so a
+    routine that writes into the caller's array cannot drag the oracle along."""
+    if callable(x) or x is None:
+        return x
+    try:
+        a = np.asarray(x)
+    except Exception:
+        return None
+    if a.dtype == object or a.size > SNAP_MAX:
+        return None
+    return a.copy()
+
+
+def pre_conv(args, kwargs):
     a = dict(zip(['obj', 'psf'], args))
     a.update(kwargs)
-    o, h = np.asarray(a['obj']), np.asarray(a['psf'])
-    if o.ndim != 2 or o.shape != h.shape or o.dtype.kind not in 'fiu' or h.dtype.kind not in 'fiu':
+    return _snap(a.get('obj')), _snap(a.get('psf'))
+
+
+def post_conv(token, args, kwargs, result):
+    o, h = token
+    if o is None or h is None:
+        CTX.skip('conv.model: array larger than 512x512 (or not an array), model not evaluated')
+        return
+    if o.ndim != 2 or o.shape != h.shape or o.dtype.kind not in 'fiub' or h.dtype.kind not in 'fiub':
         return
     if o.size > 512 * 512:
         CTX.skip('conv.model: array larger than 512x512, model not evaluated')
@@ -125,32 +187,46 @@ def post_conv(token, args, kwargs, result):
     if not (np.isfinite(o).all() and np.isfinite(h).all()):
         return
     desc = {'fn': 'conv', 'shape': o.shape, 'dtype': [str(o.dtype), str(h.dtype)]}
+    desc.update(WL)
     if o.size <= 24 * 24:
         want = ref.circular_convolution(o, h)
     else:
         want = ref.filter_image(o.astype(float), ref.dft2(h.astype(float), True), True).real
-    scale = float(np.abs(o).sum() * np.abs(h).max()) if o.size else 0.0
+    scale = float(np.abs(o.astype(float)).sum() * np.abs(h.astype(float)).max()) if o.size else 0.0
     CTX.close('conv.model', result, want, f'C15/conv/vs-direct-sum/{par2(o.shape)}',
               'conv(obj, psf) differs from the origin-centred circular convolution sum', desc,
               rtol=rtol_for(o, h), scale=max(scale, 1e-300))
 
 
-def post_atf(token, args, kwargs, result):
-    names = ['obj', 'dx', 'tfs', 'fx', 'fy', 'ft', 'fr', 'shift']
-    a = dict(zip(names, args))
+ATF_NAMES = ['obj', 'dx', 'tfs', 'fx', 'fy', 'ft', 'fr', 'shift']
+
+
+def pre_atf(args, kwargs):
+    a = dict(zip(ATF_NAMES, args))
     a.update(kwargs)
-    o = np.asarray(a['obj'])
-    tfs = list(a['tfs'])
-    shift = bool(a.get('shift', False))
-    dx, ufx, ufy = a.get('dx'), a.get('fx'), a.get('fy')
-    if o.ndim != 2 or o.dtype.kind not in 'fiu' or not np.isfinite(o).all():
+    try:
+        tfs = [_snap(t) for t in a['tfs']]
+    except Exception:
+        tfs = None
+    return {'obj': _snap(a.get('obj')), 'tfs': tfs, 'fx': _snap(a.get('fx')), 'fy': _snap(a.get('fy'))}
+
+
+def post_atf(token, args, kwargs, result):
+    a = dict(zip(ATF_NAMES, args))
+    a.update(kwargs)
+    o = token['obj']
+    tfs = token['tfs']
+    if o is None or tfs is None or any(t is None for t in tfs):
+        CTX.skip('atf.model: array larger than 512x512 (or not an array), model not evaluated')
         return
-    if o.size > 512 * 512:
-        CTX.skip('atf.model: array larger than 512x512, model not evaluated')
+    shift = bool(a.get('shift', False))
+    dx, ufx, ufy = a.get('dx'), token['fx'], token['fy']
+    if o.ndim != 2 or o.dtype.kind not in 'fiub' or not np.isfinite(o).all():
         return
     has_callable = any(callable(t) for t in tfs)
     desc = {'fn': 'apply_transfer_functions', 'shape': o.shape, 'shift': shift, 'n_tf': len(tfs),
             'callables': has_callable, 'grid': 'explicit' if ufx is not None else 'dx'}
+    desc.update(WL)
     # documented grid: the user's explicit axes, else from dx in the convention selected by `shift`
     alt = None
     if has_callable:
@@ -181,7 +257,7 @@ def post_atf(token, args, kwargs, result):
     of = o.astype(float)
     want = ref.filter_image(of, tf, shift).real
     scale = max(float(np.abs(want).max()), float(np.abs(of).max()) * 1e-3, 1e-300)
-    rt = rtol_for(o)
+    rt = rtol_for(o, *[t for t in tfs if not callable(t)])
     CTX.observe('atf.model')
     got = np.asarray(result)
     if got.shape != o.shape:
@@ -219,36 +295,38 @@ def post_atf(token, args, kwargs, result):
                   err=float(np.abs(got - want).max()) if got.shape == want.shape else 'shape', scale=scale)
 
 
-def _psf_of(args, kwargs):
-    a = dict(zip(['psf', 'dx'], args))
-    a.update(kwargs)
-    p = a['psf']
-    if not hasattr(p, 'ndim'):
-        p = p.data
-    return np.asarray(p)
-
-
 def _otf_model(p):
     D = ref.dft2(p.astype(float), True)
     return D / D[p.shape[0] // 2, p.shape[1] // 2]
 
 
 def _psf_ok(p):
-    return (p.ndim == 2 and p.dtype.kind in 'fiu' and p.size <= 512 * 512 and np.isfinite(p).all()
-            and abs(float(p.sum())) > 1e-9 * float(np.abs(p).sum() + 1e-300))
+    return (p.ndim == 2 and p.dtype.kind in 'fiub' and p.size <= 512 * 512 and np.isfinite(p).all()
+            and abs(float(p.astype(float).sum())) > 1e-9 * float(np.abs(p.astype(float)).sum() + 1e-300))
+
+
+def pre_otf(args, kwargs):
+    a = dict(zip(['psf', 'dx'], args))
+    a.update(kwargs)
+    p = a['psf']
+    form = 'array' if hasattr(p, 'ndim') else 'container'
+    if form == 'container':
+        p = p.data
+    return _snap(p), form
 
 
 def make_post_otf(which):
     def post(token, args, kwargs, result):
-        p = _psf_of(args, kwargs)
-        if not _psf_ok(p):
+        p, form = token
+        if p is None or not _psf_ok(p):
             return
-        desc = {'fn': f'{which}_from_psf', 'shape': p.shape, 'dtype': str(p.dtype)}
+        desc = {'fn': f'{which}_from_psf', 'shape': p.shape, 'dtype': str(p.dtype), 'form': form}
+        desc.update(WL)
         want = _otf_model(p)
         got = np.asarray(result.data)
         rt = rtol_for(p)
         scale = max(1.0, float(np.abs(want).max()))
-        key = f'C15/{which}/vs-dft-model/{par2(p.shape)}'
+        key = f'C15/{which}/vs-dft-model/' + ('container-form/' if form == 'container' else '') + par2(p.shape)
         if which == 'mtf':
             CTX.close('otf.model', got, np.abs(want), key, 'mtf_from_psf differs from |D|/|D[c]| (centred DFT-matrix model)', desc,
                       rtol=rt, scale=scale)
@@ -267,11 +345,11 @@ def make_post_otf(which):
 
 def install():
     from prysm import convolution, otf
-    attach(convolution, 'conv', post=post_conv)
-    attach(convolution, 'apply_transfer_functions', post=post_atf)
-    attach(otf, 'mtf_from_psf', post=make_post_otf('mtf'))
-    attach(otf, 'ptf_from_psf', post=make_post_otf('ptf'))
-    attach(otf, 'otf_from_psf', post=make_post_otf('otf'))
+    attach(convolution, 'conv', pre=pre_conv, post=post_conv)
+    attach(convolution, 'apply_transfer_functions', pre=pre_atf, post=post_atf)
+    attach(otf, 'mtf_from_psf', pre=pre_otf, post=make_post_otf('mtf'))
+    attach(otf, 'ptf_from_psf', pre=pre_otf, post=make_post_otf('ptf'))
+    attach(otf, 'otf_from_psf', pre=pre_otf, post=make_post_otf('otf'))
 
 
 # =========================================================================================== generators
@@ -423,17 +501,65 @@ def times_array(c, A):
 
 
 # =========================================================================================== run
+class Tagged:
+    """View of the run context that appends a class label to every violation key raised through it (used for the
+    configuration workloads: a defect that only exists under precision 32, or only after a 32 -> 64 switch, gets its own
+    key).  Everything else is forwarded."""
+
+    def __init__(self, ctx, suffix):
+        self._ctx = ctx
+        self._suffix = suffix
+
+    def __getattr__(self, k):
+        return getattr(self._ctx, k)
+
+    def violation(self, key, what, desc=None, **detail):
+        self._ctx.violation(key + self._suffix, what, desc, **detail)
+
+    close = Ctx.close
+    equal = Ctx.equal
+    require = Ctx.require
+    guard = Ctx.guard
+
+
+class driving:
+    """with driving(ctx, wl='...'): contracts report to ctx and carry the workload label in their witnesses."""
+
+    def __init__(self, ctx, **labels):
+        self.ctx, self.labels = ctx, labels
+
+    def __enter__(self):
+        global CTX
+        self.old = (CTX, dict(WL))
+        CTX = self.ctx
+        WL.clear()
+        WL.update(self.labels)
+        return self.ctx
+
+    def __exit__(self, *a):
+        global CTX
+        CTX = self.old[0]
+        WL.clear()
+        WL.update(self.old[1])
+
+
 def run(ctx):
     global CTX
     CTX = ctx
+    WL.clear()
     install()
     try:
+        _run_precision(ctx)      # first: its 32-bit warm-up must be the first use of its grids in this process
         _run_conv(ctx)
         _run_atf(ctx)
         _run_otf(ctx)
+        _run_repeat(ctx)
+        _run_histories(ctx)
+        _run_regimes(ctx)
         _run_rejections(ctx)
         _run_internal(ctx)
     finally:
+        WL.clear()
         detach_all()
 
 
@@ -441,69 +567,116 @@ def _law(ctx, monitor, got, want, key, what, desc, rtol, scale):
     return ctx.close(monitor, got, want, key, what, desc, rtol=rtol, scale=max(scale, 1e-300))
 
 
+# ---- argument forms ---------------------------------------------------------------------------------------------
+LAYOUTS = ['C', 'F', 'transposed-view', 'strided-slice', 'reversed-view']
+IMG_DTYPES = ['float64', 'float32', 'int64', 'int32', 'int16', 'uint8', 'bool']
+
+
+def lay(a, how):
+    """The same values in another memory layout."""
+    if how == 'C':
+        return np.ascontiguousarray(a)
+    if how == 'F':
+        return np.asfortranarray(a)
+    if how == 'transposed-view':
+        return np.ascontiguousarray(a.T).T
+    if how == 'strided-slice':
+        big = np.zeros((a.shape[0] * 2 + 1, a.shape[1] * 3 + 2), dtype=a.dtype)
+        big[1::2, 2::3] = a
+        return big[1::2, 2::3]
+    if how == 'reversed-view':
+        return np.ascontiguousarray(a[::-1, ::-1])[::-1, ::-1]
+    raise ValueError(how)
+
+
+def cast_img(x, dt):
+    """A real image in the requested dtype (integers: rounded multiples, bool: thresholded)."""
+    if dt.startswith('float'):
+        return x.astype(dt)
+    if dt == 'bool':
+        out = x > np.median(x)
+        if not out.any():
+            out.flat[0] = True
+        return out
+    if dt == 'uint8':
+        return np.clip(np.round(np.abs(x) * 40), 0, 255).astype(np.uint8)
+    return np.round(x * 20).astype(dt)
+
+
 # ------------------------------------------------------------------------------------------- conv
+def _conv_laws(ctx, conv, r, shape, cls, desc, dtype='float64', layout='C'):
+    """The statement's laws for one (object pair, PSF); the conv contract judges every call as well."""
+    a = lay(cast_img(r.standard_normal(shape), dtype), layout)
+    b = lay(cast_img(r.standard_normal(shape), dtype), layout)
+    h, info = make_psf(cls, shape, r)
+    h = lay(cast_img(h, dtype), layout) if 'k' not in info else lay(h.astype(dtype), layout)
+    al, be = float(r.uniform(-2, 2)), float(r.uniform(-2, 2))
+    if not dtype.startswith('float'):
+        al, be = float(int(r.integers(-3, 4))), float(int(r.integers(-3, 4)))
+    rt = rtol_for(a, h)
+    af, bf, hf = a.astype(float), b.astype(float), h.astype(float)
+    ia = conv(a, h)
+    ib = conv(b, h)
+    scale = float(np.abs(af).sum() + np.abs(bf).sum()) * float(np.abs(hf).max())
+    combo = al * af + be * bf
+    if dtype == 'float32':
+        combo = combo.astype(np.float32)
+    il = conv(combo, h)
+    _law(ctx, 'conv.linearity', il, al * np.asarray(ia, dtype=float) + be * np.asarray(ib, dtype=float), 'C15/conv/linearity',
+         'conv(alpha a + beta b, h) != alpha conv(a,h) + beta conv(b,h)', desc, rt, scale * max(1.0, abs(al), abs(be)))
+    ic = conv(h, a)
+    _law(ctx, 'conv.commutativity', ic, ia, 'C15/conv/commutativity', 'conv(a,h) != conv(h,a)', desc, rt, scale)
+    tot = float(np.abs(af).sum() * np.abs(hf).sum())
+    _law(ctx, 'conv.energy', np.asarray(ia, dtype=float).sum(), float(af.sum() * hf.sum()),
+         'C15/conv/energy', 'sum(conv(a,h)) != sum(a) sum(h)', desc, rt, tot)
+    if 'k' in info:
+        k0, k1 = info['k']
+        which = 'impulse-identity' if (k0, k1) == (0, 0) else 'impulse-translation'
+        _law(ctx, f'conv.{which}', ia, np.roll(af, (k0, k1), axis=(0, 1)), f'C15/conv/{which}/{par2(shape)}',
+             'conv(a, delta at origin+k) != roll(a, k)' if which != 'impulse-identity' else
+             'conv(a, unit impulse at n//2) != a', desc, rt, float(np.abs(af).max()))
+
+
 def _run_conv(ctx):
     from prysm.convolution import conv
     rng = ctx.rng('c15-conv')
-    shapes = shapes_for(ctx, rng, ctx.pick(8, 14), ctx.pick(120, 2400), ctx.pick(24, 40))
+    shapes = shapes_for(ctx, rng, ctx.pick(8, 16), ctx.pick(120, 10000), ctx.pick(24, 96))
     k = -1
-    for shape in shapes:
-        for cls in PSF_CLASSES:
-            k += 1
-            if not ctx.mine(k):
-                continue
-            sub = ctx.subseed(rng)
-            r = np.random.default_rng(sub)
-            f32 = (k % 11 == 5)
-            desc = {'wl': 'conv', 'shape': shape, 'psf': cls, 'seed': sub, 'dtype': 'float32' if f32 else 'float64',
-                    'class': f'conv:{shape_class(shape)}:{cls}' + (':f32' if f32 else '')}
-            ctx.case(desc, nontrivial=shape[0] * shape[1] >= 2)
-            a = r.standard_normal(shape)
-            b = r.standard_normal(shape)
-            h, info = make_psf(cls, shape, r)
-            if f32:
-                a, b, h = a.astype(np.float32), b.astype(np.float32), h.astype(np.float32)
-            al, be = float(r.uniform(-2, 2)), float(r.uniform(-2, 2))
-            rt = rtol_for(a)
-            with ctx.guard(f'C15/conv/{par2(shape)}', desc):
-                ia = conv(a, h)
-                ib = conv(b, h)
-                scale = float(np.abs(a).sum() + np.abs(b).sum()) * float(np.abs(h).max())
-                il = conv(al * a + be * b, h)
-                _law(ctx, 'conv.linearity', il, al * ia + be * ib, 'C15/conv/linearity',
-                     'conv(alpha a + beta b, h) != alpha conv(a,h) + beta conv(b,h)', desc, rt, scale)
-                ic = conv(h, a)
-                _law(ctx, 'conv.commutativity', ic, ia, 'C15/conv/commutativity', 'conv(a,h) != conv(h,a)', desc, rt, scale)
-                tot = float(np.abs(a).sum() * np.abs(h).sum())
-                _law(ctx, 'conv.energy', np.asarray(ia, dtype=float).sum(), float(a.astype(float).sum() * h.astype(float).sum()),
-                     'C15/conv/energy', 'sum(conv(a,h)) != sum(a) sum(h)', desc, rt, tot)
-                if 'k' in info:
-                    k0, k1 = info['k']
-                    which = 'impulse-identity' if (k0, k1) == (0, 0) else 'impulse-translation'
-                    _law(ctx, f'conv.{which}', ia, np.roll(a, (k0, k1), axis=(0, 1)), f'C15/conv/{which}/{par2(shape)}',
-                         'conv(a, delta at origin+k) != roll(a, k)' if which != 'impulse-identity' else
-                         'conv(a, unit impulse at n//2) != a', desc, rt, float(np.abs(a).max()))
-    # every impulse position on small shapes (exhaustive), incl. edges and corners
-    small = [s for s in shapes_for(ctx, rng, ctx.pick(5, 9), 0, 0)]
-    k = -1
-    for shape in small:
-        n0, n1 = shape
-        for i0 in range(n0):
-            for i1 in range(n1):
+    with driving(ctx, wl='conv'):
+        for shape in shapes:
+            for cls in PSF_CLASSES:
                 k += 1
                 if not ctx.mine(k):
                     continue
-                desc = {'wl': 'conv-impulse', 'shape': shape, 'at': (i0, i1), 'class': f'impulse-all:{shape_class(shape)}'}
-                ctx.case(desc, nontrivial=n0 * n1 >= 2)
-                a = (np.arange(n0 * n1, dtype=float).reshape(shape) + 1.0) * (1 + 0.01 * np.cos(np.arange(n1)))[None, :]
-                d = np.zeros(shape)
-                d[i0, i1] = 1.0
-                k0, k1 = i0 - n0 // 2, i1 - n1 // 2
-                which = 'impulse-identity' if (k0, k1) == (0, 0) else 'impulse-translation'
+                sub = ctx.subseed(rng)
+                r = np.random.default_rng(sub)
+                f32 = (k % 11 == 5)
+                desc = {'wl': 'conv', 'shape': shape, 'psf': cls, 'seed': sub, 'dtype': 'float32' if f32 else 'float64',
+                        'class': f'conv:{shape_class(shape)}:{cls}' + (':f32' if f32 else '')}
+                ctx.case(desc, nontrivial=shape[0] * shape[1] >= 2)
                 with ctx.guard(f'C15/conv/{par2(shape)}', desc):
-                    _law(ctx, f'conv.{which}', conv(a, d), np.roll(a, (k0, k1), axis=(0, 1)), f'C15/conv/{which}/{par2(shape)}',
-                         'conv(a, delta at origin+k) != roll(a, k)', desc, RT, float(np.abs(a).max()))
-    ctx.note('impulse_positions', f'every impulse position for every shape up to {ctx.pick(5, 9)}x{ctx.pick(5, 9)}')
+                    _conv_laws(ctx, conv, r, shape, cls, desc, 'float32' if f32 else 'float64')
+        # every impulse position on small shapes (exhaustive), incl. edges and corners
+        small = [s for s in shapes_for(ctx, rng, ctx.pick(5, 10), 0, 0)]
+        k = -1
+        for shape in small:
+            n0, n1 = shape
+            for i0 in range(n0):
+                for i1 in range(n1):
+                    k += 1
+                    if not ctx.mine(k):
+                        continue
+                    desc = {'wl': 'conv-impulse', 'shape': shape, 'at': (i0, i1), 'class': f'impulse-all:{shape_class(shape)}'}
+                    ctx.case(desc, nontrivial=n0 * n1 >= 2)
+                    a = (np.arange(n0 * n1, dtype=float).reshape(shape) + 1.0) * (1 + 0.01 * np.cos(np.arange(n1)))[None, :]
+                    d = np.zeros(shape)
+                    d[i0, i1] = 1.0
+                    k0, k1 = i0 - n0 // 2, i1 - n1 // 2
+                    which = 'impulse-identity' if (k0, k1) == (0, 0) else 'impulse-translation'
+                    with ctx.guard(f'C15/conv/{par2(shape)}', desc):
+                        _law(ctx, f'conv.{which}', conv(a, d), np.roll(a, (k0, k1), axis=(0, 1)), f'C15/conv/{which}/{par2(shape)}',
+                             'conv(a, delta at origin+k) != roll(a, k)', desc, RT, float(np.abs(a).max()))
+    ctx.note('impulse_positions', f'every impulse position for every shape up to {ctx.pick(5, 10)}x{ctx.pick(5, 10)}')
 
 
 # ------------------------------------------------------------------------------------------- apply_transfer_functions
@@ -525,44 +698,48 @@ def _grids_for(mode, shape, dx, shift):
 def _run_atf(ctx):
     from prysm.convolution import apply_transfer_functions as atf
     rng = ctx.rng('c15-atf')
-    shapes = shapes_for(ctx, rng, ctx.pick(6, 10), ctx.pick(60, 1500), ctx.pick(24, 40))
+    shapes = shapes_for(ctx, rng, ctx.pick(6, 11), ctx.pick(60, 6000), ctx.pick(24, 96))
     k = -1
-    for shape in shapes:
-        for cls in TF_CLASSES:
-            for shift in (False, True):
-                k += 1
-                if not ctx.mine(k):
-                    continue
-                sub = ctx.subseed(rng)
-                r = np.random.default_rng(sub)
-                mode = GRID_MODES[int(r.integers(3))] if ('callable' in cls or cls in ('prysm-fts', 'mixed')) else 'dx'
-                dx = [1.0, 0.25, 3.7][int(r.integers(3))]
-                desc = {'wl': 'atf', 'shape': shape, 'tf': cls, 'shift': shift, 'grid': mode, 'dx': dx, 'seed': sub,
-                        'class': f'atf:{shape_class(shape)}:{cls}:shift={shift}:{mode}'}
-                ctx.case(desc, nontrivial=shape[0] * shape[1] >= 2)
-                with ctx.guard(f'C15/atf/shift={shift}/{cls}', desc):
-                    _atf_case(ctx, atf, r, shape, cls, shift, mode, dx, desc)
+    with driving(ctx, wl='atf'):
+        for shape in shapes:
+            for cls in TF_CLASSES:
+                for shift in (False, True):
+                    k += 1
+                    if not ctx.mine(k):
+                        continue
+                    sub = ctx.subseed(rng)
+                    r = np.random.default_rng(sub)
+                    mode = GRID_MODES[int(r.integers(3))] if ('callable' in cls or cls in ('prysm-fts', 'mixed')) else 'dx'
+                    dx = [1.0, 0.25, 3.7][int(r.integers(3))]
+                    desc = {'wl': 'atf', 'shape': shape, 'tf': cls, 'shift': shift, 'grid': mode, 'dx': dx, 'seed': sub,
+                            'class': f'atf:{shape_class(shape)}:{cls}:shift={shift}:{mode}'}
+                    ctx.case(desc, nontrivial=shape[0] * shape[1] >= 2)
+                    with ctx.guard(f'C15/atf/shift={shift}/{cls}', desc):
+                        _atf_case(ctx, atf, r, shape, cls, shift, mode, dx, desc)
 
 
-def _identity_law(ctx, out, o, shift, desc, what):
+def _identity_law(ctx, out, o, shift, desc, what, rt=RT):
     ctx.observe('atf.ones-identity')
+    o = np.asarray(o, dtype=float)
     scale = max(float(np.abs(o).max()), 1e-300)
-    if close(np.asarray(out), o, RT, scale):
+    if close(np.asarray(out), o, rt, scale):
         return
     sh = np.roll(o, (o.shape[0] // 2, o.shape[1] // 2), axis=(0, 1))
-    if not shift and close(np.asarray(out), sh, RT, scale):
+    if not shift and close(np.asarray(out), sh, rt, scale):
         ctx.violation(KEY_FFTSHIFT, 'apply_transfer_functions(shift=False) returns fftshift(image): the all-ones transfer '
                       'function is not the identity', desc)
     else:
         ctx.violation(f'C15/atf/shift={shift}/ones-not-identity', what, desc)
 
 
-def _atf_case(ctx, atf, r, shape, cls, shift, mode, dx, desc):
-    o = r.standard_normal(shape)
+def _atf_case(ctx, atf, r, shape, cls, shift, mode, dx, desc, dtype='float64', pool=None):
+    o = cast_img(r.standard_normal(shape), dtype)
+    RTc = rtol_for(o)
     gk = _grids_for(mode, shape, dx, shift)
     fxd, fyd = doc_grids(shape, dx, shift)
-    omax = max(float(np.abs(o).max()), 1e-300)
-    pool = callable_pool(r, dx)
+    omax = max(float(np.abs(o.astype(float)).max()), 1e-300)
+    if pool is None:
+        pool = callable_pool(r, dx)
     names = list(pool)
 
     def lp_key(kind):
@@ -582,9 +759,9 @@ def _atf_case(ctx, atf, r, shape, cls, shift, mode, dx, desc):
         a3 = atf(o, None, tuple(tfs), shift=shift)         # dx is documented as ignored for arrays; tuple is a sequence
         sc = max(float(np.abs(a2).max()), omax * 1e-3)
         _law(ctx, 'atf.list-vs-product', a1, a2, f'C15/atf/shift={shift}/list-vs-product/arrays',
-             'apply_transfer_functions(o, [t1..tk]) != apply_transfer_functions(o, [t1*..*tk])', desc, RT, sc)
+             'apply_transfer_functions(o, [t1..tk]) != apply_transfer_functions(o, [t1*..*tk])', desc, RTc, sc)
         _law(ctx, 'atf.list-vs-product', a3, a1, f'C15/atf/shift={shift}/list-vs-product/arrays',
-             'result depends on dx / on list vs tuple although only arrays were given', desc, RT, sc)
+             'result depends on dx / on list vs tuple although only arrays were given', desc, RTc, sc)
     elif cls in ('callables', 'prysm-fts'):
         cand = [n for n in names if n.startswith('prysm:')] if cls == 'prysm-fts' else [n for n in names if not n.startswith('prysm:')]
         n = int(r.integers(1, 4))
@@ -595,17 +772,17 @@ def _atf_case(ctx, atf, r, shape, cls, shift, mode, dx, desc):
         a2 = atf(o, dx, [prod_callable(cs)], shift=shift, **gk)
         sc = max(float(np.abs(a2).max()), omax * 1e-3)
         _law(ctx, 'atf.list-vs-product', a1, a2, f'C15/atf/shift={shift}/list-vs-product/callables',
-             'apply_transfer_functions(o, [c1..ck]) != apply_transfer_functions(o, [c1*..*ck]) for callables', desc, RT, sc)
+             'apply_transfer_functions(o, [c1..ck]) != apply_transfer_functions(o, [c1*..*ck]) for callables', desc, RTc, sc)
         # a callable and the array it evaluates to on the documented grid are the same transfer function
         arr = np.broadcast_to(product_tf(cs, shape, fxd, fyd), shape)
         a4 = atf(o, dx, [arr], shift=shift)
         ctx.observe('atf.callable-vs-array')
         if np.shape(a1) != shape and mode == 'explicit-2d' and takes_polar(cs):
             ctx.violation(KEY_2DGRID, WHAT_2DGRID, desc, got_shape=list(np.shape(a1)))
-        elif not close(np.asarray(a1), np.asarray(a4), RT, sc):
+        elif not close(np.asarray(a1), np.asarray(a4), RTc, sc):
             fxa, fya = doc_grids(shape, dx, not shift)
             a5 = atf(o, dx, [np.broadcast_to(product_tf(cs, shape, fxa, fya), shape)], shift=shift)
-            if mode == 'dx' and not shift and close(np.asarray(a1), np.asarray(a5), RT, sc):
+            if mode == 'dx' and not shift and close(np.asarray(a1), np.asarray(a5), RTc, sc):
                 ctx.violation(KEY_CGRID, 'apply_transfer_functions(shift=False) evaluates callables on the centred frequency '
                               'grid although the spectrum it multiplies has zero frequency at [0,0]', desc)
             else:
@@ -622,7 +799,7 @@ def _atf_case(ctx, atf, r, shape, cls, shift, mode, dx, desc):
         a2 = atf(o, dx, [times_array(c, A * B)], shift=shift, **gk)
         sc = max(float(np.abs(a2).max()), omax * 1e-3)
         _law(ctx, 'atf.list-vs-product', a1, a2, f'C15/atf/shift={shift}/list-vs-product/mixed',
-             'a mixed list of arrays and callables != its product applied at once', desc, RT, sc)
+             'a mixed list of arrays and callables != its product applied at once', desc, RTc, sc)
     elif cls in ('ones-array', 'ones-scalar-array', 'empty', 'ones-callable'):
         if cls == 'ones-array':
             tfs, kw = [np.ones(shape)], {}
@@ -633,7 +810,7 @@ def _atf_case(ctx, atf, r, shape, cls, shift, mode, dx, desc):
         else:
             tfs, kw = [OnesTF()], gk
         out = atf(o, dx, tfs, shift=shift, **kw)
-        _identity_law(ctx, out, o, shift, desc, 'the all-ones transfer function does not return the object')
+        _identity_law(ctx, out, o, shift, desc, 'the all-ones transfer function does not return the object', RTc)
     elif cls in ('linear-phase-array', 'linear-phase-callable'):
         n0, n1 = shape
         k0, k1 = int(r.integers(-n0, n0 + 1)), int(r.integers(-n1, n1 + 1))
@@ -645,14 +822,14 @@ def _atf_case(ctx, atf, r, shape, cls, shift, mode, dx, desc):
             t = lp(fxd.reshape(1, -1), fyd.reshape(-1, 1))
             out = atf(o, dx, [t], shift=shift)
             _law(ctx, 'atf.linear-phase', out, want, lp_key('array'),
-                 'the transfer function exp(-2 pi i f.k dx) does not translate the image by k samples', desc, RT, omax)
+                 'the transfer function exp(-2 pi i f.k dx) does not translate the image by k samples', desc, RTc, omax)
         else:
             out = atf(o, dx, [lp], shift=shift, **gk)
             ctx.observe('atf.linear-phase')
-            if not close(np.asarray(out), want, RT, omax):
+            if not close(np.asarray(out), want, RTc, omax):
                 fxa, fya = doc_grids(shape, dx, not shift)
                 alt = atf(o, dx, [lp(fxa.reshape(1, -1), fya.reshape(-1, 1))], shift=shift)
-                if mode == 'dx' and not shift and close(np.asarray(out), np.asarray(alt), RT, omax):
+                if mode == 'dx' and not shift and close(np.asarray(out), np.asarray(alt), RTc, omax):
                     ctx.violation(KEY_CGRID, 'apply_transfer_functions(shift=False) evaluates callables on the centred '
                                   'frequency grid although the spectrum it multiplies has zero frequency at [0,0]', desc)
                 else:
@@ -661,59 +838,554 @@ def _atf_case(ctx, atf, r, shape, cls, shift, mode, dx, desc):
 
 
 # ------------------------------------------------------------------------------------------- MTF / OTF / PTF
+def _mtf_validity(ctx, m, O, ph, shape, desc, f32):
+    """The statement's MTF/OTF/PTF laws on one set of observed outputs."""
+    n0, n1 = shape
+    c0, c1 = n0 // 2, n1 // 2
+    rt = 2e-4 if f32 else RT
+    ok_shape = m.shape == shape
+    ctx.require('mtf.dc', ok_shape and abs(float(m[c0, c1]) - 1.0) <= (1e-5 if f32 else 1e-12), f'C15/mtf/dc-not-1/{par2(shape)}',
+                'MTF at zero frequency (sample n//2) is not 1', desc, got=float(m[c0, c1]) if ok_shape else None)
+    if not ok_shape:
+        return
+    ctx.require('mtf.max', bool(np.nanmax(m) <= 1 + (1e-12 if not f32 else 1e-5)) and not np.isnan(m).any(),
+                'C15/mtf/exceeds-1', 'MTF of a non-negative PSF exceeds 1 (or is NaN)', desc, got=float(np.nanmax(m)))
+    i0 = (2 * c0 - np.arange(n0)) % n0
+    i1 = (2 * c1 - np.arange(n1)) % n1
+    _law(ctx, 'mtf.point-symmetry', m[np.ix_(i0, i1)], m, f'C15/mtf/point-symmetry/{par2(shape)}',
+         'MTF(c+k) != MTF(c-k) (indices modulo n)', desc, rt, 1.0)
+    _law(ctx, 'otf.abs-vs-mtf', np.abs(O), m, 'C15/otf/abs-vs-mtf', '|OTF| != MTF', desc, rt, 1.0)
+    # arg OTF == PTF wherever the phase is defined (|OTF| > 1e-6); elsewhere excluded and counted
+    floor = 1e-2 if f32 else 1e-6
+    if O.shape != shape:
+        return
+    good = np.abs(O) > floor
+    ctx.skip('otf.arg-vs-ptf: samples with |OTF| <= 1e-6 (1e-2 for float32 input): phase undefined', int((~good).sum()))
+    if ph.shape == O.shape:
+        _law(ctx, 'otf.arg-vs-ptf', np.exp(1j * ph[good]), (O / np.where(good, np.abs(O), 1))[good], 'C15/otf/arg-vs-ptf',
+             'arg(OTF) != PTF (modulo 2 pi) where |OTF| is not negligible', desc, 2e-2 if f32 else 1e-6, 1.0)
+    else:
+        ctx.violation('C15/otf/arg-vs-ptf/shape', 'PTF and OTF have different shapes', desc)
+
+
+def _otf_laws(ctx, otf, r, shape, cls, container, dx, desc, dtype='float64', layout='C'):
+    from prysm._richdata import RichData
+    p, _ = make_psf(cls, shape, r)
+    p = lay(cast_img(p, dtype) if dtype != 'float64' else p, layout)
+    if float(p.astype(float).sum()) == 0.0:
+        ctx.skip('otf: PSF with zero sum after the integer cast (MTF undefined)')
+        return
+    f32 = rtol_for(p) != RT
+    if container == 'RichData':
+        arg = (RichData(p.copy(), dx, None),)
+    else:
+        arg = (p.copy(), dx)
+    m = np.asarray(otf.mtf_from_psf(*arg).data)
+    O = np.asarray(otf.otf_from_psf(*arg).data)
+    ph = np.asarray(otf.ptf_from_psf(*arg).data)
+    _mtf_validity(ctx, m, O, ph, shape, desc, f32)
+
+
 def _run_otf(ctx):
     from prysm import otf
-    from prysm._richdata import RichData
     rng = ctx.rng('c15-otf')
-    shapes = shapes_for(ctx, rng, ctx.pick(7, 12), ctx.pick(80, 2000), ctx.pick(24, 40))
+    shapes = shapes_for(ctx, rng, ctx.pick(7, 13), ctx.pick(80, 10000), ctx.pick(24, 96))
     classes = [c for c in PSF_CLASSES if c != 'rand-signed']
     k = -1
-    for shape in shapes:
-        for cls in classes:
+    with driving(ctx, wl='otf'):
+        for shape in shapes:
+            for cls in classes:
+                k += 1
+                if not ctx.mine(k):
+                    continue
+                sub = ctx.subseed(rng)
+                r = np.random.default_rng(sub)
+                container = ['array', 'RichData'][k % 2]
+                f32 = (k % 13 == 7)
+                dx = [1.0, 0.1, 5.5][k % 3]
+                desc = {'wl': 'otf', 'shape': shape, 'psf': cls, 'input': container, 'dx': dx, 'seed': sub,
+                        'dtype': 'float32' if f32 else 'float64',
+                        'class': f'otf:{shape_class(shape)}:{cls}:{container}' + (':f32' if f32 else '')}
+                ctx.case(desc, nontrivial=shape[0] * shape[1] >= 2)
+                with ctx.guard(f'C15/otf/{par2(shape)}', desc):
+                    _otf_laws(ctx, otf, r, shape, cls, container, dx, desc, 'float32' if f32 else 'float64')
+
+
+# ------------------------------------------------------------------------------------------- class A: repeat / aliasing
+REPEAT_SHAPES_Q = [(1, 2), (2, 2), (3, 3), (3, 4), (4, 4), (5, 5), (4, 7), (7, 4), (8, 8), (9, 6), (11, 11), (12, 15), (16, 16), (17, 20)]
+TF_CONTAINERS = ['list', 'tuple', 'ndarray-stack']
+TF_DTYPES = ['complex128', 'complex64', 'float64', 'float32', 'int64']
+
+
+def _run_repeat(ctx):
+    """The same argument *objects* passed again (to the same routine, to another routine of the property, in the keyword
+    form); arguments in every memory layout and image dtype; results the caller edits.  The later call is judged."""
+    from prysm import otf
+    from prysm._richdata import RichData
+    from prysm.convolution import apply_transfer_functions as atf, conv
+    rng = ctx.rng('c15-repeat')
+    shapes = list(REPEAT_SHAPES_Q)
+    for _ in range(ctx.pick(6, 900)):
+        shapes.append((int(rng.integers(2, ctx.pick(24, 64) + 1)), int(rng.integers(2, ctx.pick(24, 64) + 1))))
+    combos = [(lo, dt) for dt in IMG_DTYPES for lo in LAYOUTS]
+    k = -1
+    with driving(ctx, wl='repeat'):
+        for si, shape in enumerate(shapes):
+            # every (layout, dtype) pair on the first shapes, then a rotating subset
+            mine = combos if si < ctx.pick(3, 14) else [combos[(si * 7 + j * 11) % len(combos)] for j in range(ctx.pick(4, 8))]
+            for layout, dtype in mine:
+                for routine in ('conv', 'atf', 'otf'):
+                    k += 1
+                    if not ctx.mine(k):
+                        continue
+                    sub = ctx.subseed(rng)
+                    r = np.random.default_rng(sub)
+                    shift = bool(k % 2)
+                    desc = {'wl': 'repeat', 'routine': routine, 'shape': shape, 'layout': layout, 'dtype': dtype, 'seed': sub,
+                            'class': f'repeat:{routine}:{layout}:{dtype}'}
+                    if routine == 'atf':
+                        desc['shift'] = shift
+                    ctx.case(desc, nontrivial=True)
+                    ctx.observe('repeat.cases')
+                    with ctx.guard(f'C15/repeat/{routine}/{layout}/{"float" if dtype.startswith("float") else "integer" if dtype != "bool" else "bool"}', desc):
+                        if routine == 'conv':
+                            _repeat_conv(ctx, conv, atf, otf, r, shape, layout, dtype, desc)
+                        elif routine == 'atf':
+                            _repeat_atf(ctx, atf, r, shape, layout, dtype, shift, desc, k)
+                        else:
+                            _repeat_otf(ctx, otf, RichData, r, shape, layout, dtype, desc)
+
+
+def _repeat_conv(ctx, conv, atf, otf, r, shape, layout, dtype, desc):
+    a = lay(cast_img(r.standard_normal(shape), dtype), layout)
+    h = lay(cast_img(r.random(shape) + 0.05, dtype), layout)
+    if float(h.astype(float).sum()) == 0.0:
+        h = lay(cast_img(np.ones(shape), dtype), layout)
+    af, hf = a.astype(float), h.astype(float)
+    rt = rtol_for(a, h)
+    scale = float(np.abs(af).sum()) * float(np.abs(hf).max())
+    i1 = np.array(conv(a, h), dtype=float)
+    i2 = conv(a, h)
+    _law(ctx, 'repeat.same-args', i2, i1, 'C15/conv/repeat/same-argument-objects',
+         'conv(a, h) called twice with the same array objects gives two different images', desc, rt, scale)
+    # the same PSF object goes through the otf routines, then conv is judged again
+    dx = 0.5
+    m = np.array(otf.mtf_from_psf(h, dx).data)
+    O = np.array(otf.otf_from_psf(h, dx).data)
+    otf.ptf_from_psf(h, dx)
+    i3 = conv(a, h)
+    _law(ctx, 'repeat.cross-routine', i3, i1, 'C15/conv/repeat/after-otf-of-the-same-psf',
+         'conv(a, h) changes after mtf/otf/ptf_from_psf were called with the same PSF array', desc, rt, scale)
+    ic = conv(h, a)
+    _law(ctx, 'conv.commutativity', ic, i1, 'C15/conv/commutativity', 'conv(h,a) != conv(a,h) (arguments re-used)', desc, rt, scale)
+    _law(ctx, 'otf.abs-vs-mtf', np.abs(O), m, 'C15/otf/abs-vs-mtf', '|OTF| != MTF (PSF array shared with conv)', desc, rt, 1.0)
+    # convolution theorem across the three routines: conv(a,h) == atf(a, [sum(h) OTF(h)], shift=True)
+    D = O.astype(complex) * float(hf.sum())
+    i4 = atf(a, dx, [D], shift=True)
+    _law(ctx, 'cross.conv-vs-atf-otf', i4, i1, 'C15/cross/conv-vs-atf-with-otf',
+         'conv(a, h) != apply_transfer_functions(a, [sum(h) * otf_from_psf(h)], shift=True)', desc, rt, scale)
+    i5 = conv(a, h)
+    _law(ctx, 'repeat.cross-routine', i5, i1, 'C15/conv/repeat/after-atf-of-the-same-object',
+         'conv(a, h) changes after apply_transfer_functions was called with the same object array', desc, rt, scale)
+
+
+def _tf_material(r, shape, shift, tdt, n):
+    if tdt in ('complex128', 'complex64'):
+        ts = [herm_random(shape, r, shift).astype(tdt) for _ in range(n)]
+    elif tdt in ('float64', 'float32'):
+        ts = [even_real(shape, r, shift).astype(tdt) for _ in range(n)]
+    else:
+        ts = [np.round(even_real(shape, r, shift) * 4).astype(tdt) - 1 for _ in range(n)]
+    return ts
+
+
+def _repeat_atf(ctx, atf, r, shape, layout, dtype, shift, desc, k):
+    o1 = lay(cast_img(r.standard_normal(shape), dtype), layout)
+    o2 = lay(cast_img(r.standard_normal(shape), dtype), layout)
+    tdt = TF_DTYPES[k % len(TF_DTYPES)]
+    cont = TF_CONTAINERS[(k // len(TF_DTYPES)) % len(TF_CONTAINERS)]
+    desc['tf_dtype'], desc['tf_container'] = tdt, cont
+    n = int(r.integers(2, 4))
+    ts = [lay(t, layout) for t in _tf_material(r, shape, shift, tdt, n)]
+    pristine = [np.array(t, dtype=complex) for t in ts]
+    P = functools.reduce(lambda x, y: x * y, pristine)
+    tfs = ts if cont == 'list' else tuple(ts) if cont == 'tuple' else np.stack([np.asarray(t) for t in ts])
+    rt = rtol_for(o1, *ts)
+    dx = 0.8
+    omax = max(float(np.abs(o1.astype(float)).max()), float(np.abs(o2.astype(float)).max()), 1e-300)
+    a1 = np.array(atf(o1, dx, tfs, shift=shift), dtype=float)
+    a2 = atf(o1, dx, tfs, shift=shift)
+    sc = max(float(np.abs(a1).max()), omax * 1e-3)
+    _law(ctx, 'repeat.same-args', a2, a1, f'C15/atf/shift={shift}/repeat/same-argument-objects',
+         'apply_transfer_functions called twice with the same object and the same transfer-function arrays gives two images',
+         desc, rt, sc)
+    a3 = atf(o2, dx, tfs=tfs, shift=shift)                      # keyword form, third use of the same arrays
+    a4 = atf(o2, dx, [P], shift=shift)
+    sc2 = max(float(np.abs(a4).max()), omax * 1e-3)
+    _law(ctx, 'atf.list-vs-product', a3, a4, f'C15/atf/shift={shift}/list-vs-product/arrays-reused',
+         'after earlier calls with the same transfer-function arrays, apply_transfer_functions(o, tfs) != '
+         'apply_transfer_functions(o, [product of the arrays as they were given])', desc, rt, sc2)
+    # explicit frequency grids passed as float64 ndarrays and re-used; callable judged against its array on the pristine grid
+    pool = callable_pool(r, dx)
+    names = list(pool)
+    name = names[int(r.integers(len(names)))]
+    c = pool[name]
+    desc['callable'] = name
+    mode = ['explicit-1d', 'explicit-2d'][k % 2]
+    gk = _grids_for(mode, shape, dx, shift)
+    fxd, fyd = doc_grids(shape, dx, shift)
+    b1 = atf(o1, dx, [c], shift=shift, **gk)
+    b2 = atf(o2, dx, [c], shift=shift, **gk)
+    arr = np.broadcast_to(product_tf([c], shape, fxd, fyd), shape)
+    b3 = atf(o2, dx, [arr], shift=shift)
+    ctx.observe('atf.callable-vs-array')
+    sc3 = max(float(np.abs(b3).max()), omax * 1e-3)
+    if np.shape(b2) != shape and mode == 'explicit-2d' and takes_polar([c]):
+        ctx.violation(KEY_2DGRID, WHAT_2DGRID, desc, got_shape=list(np.shape(b2)))
+    elif not close(np.asarray(b2), np.asarray(b3), rt, sc3):
+        ctx.violation(f'C15/atf/shift={shift}/callable-vs-array/grid-arrays-reused',
+                      'with the caller\'s fx, fy arrays passed a second time, a callable transfer function and the array it '
+                      'evaluates to on that grid give different images', desc)
+    del b1
+
+
+def _repeat_otf(ctx, otf, RichData, r, shape, layout, dtype, desc):
+    cls = ['rand-nonneg', 'gauss-offcentre', 'double-delta'][int(r.integers(3))]
+    p, _ = make_psf(cls, shape, r)
+    p = lay(cast_img(p, dtype) if dtype != 'float64' else p, layout)
+    if float(p.astype(float).sum()) == 0.0:
+        ctx.skip('otf: PSF with zero sum after the integer cast (MTF undefined)')
+        return
+    f32 = rtol_for(p) != RT
+    rt = rtol_for(p)
+    dx = 2.5
+    fns = {'mtf': otf.mtf_from_psf, 'otf': otf.otf_from_psf, 'ptf': otf.ptf_from_psf}
+    first = {w: np.array(f(p, dx).data) for w, f in fns.items()}
+    _mtf_validity(ctx, first['mtf'], first['otf'], first['ptf'], shape, desc, f32)
+    # second round on the same array object, after the caller has scribbled over the first results
+    again = {}
+    for w, f in fns.items():
+        res = f(p, dx)
+        again[w] = np.array(res.data)
+        res.data[...] = 0                # the caller owns what it was handed
+    for w in ('mtf', 'otf'):
+        _law(ctx, 'repeat.same-args', again[w], first[w], f'C15/{w}/repeat/same-argument-object',
+             f'{w}_from_psf(psf, dx) called twice with the same array gives two results', desc, rt, 1.0)
+    third = {w: np.array(f(p, dx).data) for w, f in fns.items()}
+    for w in ('mtf', 'otf'):
+        _law(ctx, 'repeat.same-args', third[w], first[w], f'C15/{w}/repeat/after-caller-edits-result',
+             f'{w}_from_psf returns something else after the caller modified the array a previous call returned', desc, rt, 1.0)
+    # container form sharing the very same array, every routine twice, results edited in between
+    c = RichData(p, dx, None)
+    for rnd in (0, 1):
+        got = {}
+        for w, f in fns.items():
+            res = f(c)
+            got[w] = np.array(res.data)
+            res.data[...] = 0
+        for w in ('mtf', 'otf'):
+            _law(ctx, 'otf.container-vs-array', got[w], first[w], f'C15/{w}/container-vs-array',
+                 f'{w}_from_psf(container) != {w}_from_psf(container.data, container.dx)', desc, rt, 1.0, )
+        _mtf_validity(ctx, got['mtf'], got['otf'], got['ptf'], shape, desc, f32)
+
+
+# ------------------------------------------------------------------------------------------- class B: histories
+OTF_CHANGES = ['reassign-data', 'inplace-overwrite', 'inplace-edit-region', 'conv-stored-back', 'copy-of-used-container',
+               'array-form-inplace-edit', 'reassign-other-shape', 'data-and-dx']
+OTF_FNS = ['mtf', 'ptf', 'otf']
+
+
+def _run_histories(ctx):
+    from prysm import otf
+    from prysm._richdata import RichData
+    from prysm.convolution import apply_transfer_functions as atf, conv
+    rng = ctx.rng('c15-hist')
+    fns = {'mtf': otf.mtf_from_psf, 'otf': otf.otf_from_psf, 'ptf': otf.ptf_from_psf}
+    shapes = [(3, 3), (4, 5), (8, 8), (9, 12), (16, 11)]
+    for _ in range(ctx.pick(3, 320)):
+        shapes.append((int(rng.integers(2, ctx.pick(28, 64) + 1)), int(rng.integers(2, ctx.pick(28, 64) + 1))))
+    k = -1
+    with driving(ctx, wl='history'):
+        # ---- MTF/PTF/OTF of one PSF object whose content changes between calls
+        for shape in shapes:
+            for change in OTF_CHANGES:
+                for first in OTF_FNS:
+                    for second in OTF_FNS:
+                        k += 1
+                        if not ctx.mine(k):
+                            continue
+                        sub = ctx.subseed(rng)
+                        r = np.random.default_rng(sub)
+                        desc = {'wl': 'otf-history', 'shape': shape, 'change': change, 'first': first, 'second': second,
+                                'seed': sub, 'class': f'history:otf:{change}:{first}->{second}'}
+                        ctx.case(desc)
+                        with ctx.guard(f'C15/otf/history/{change}', desc):
+                            _otf_history(ctx, fns, conv, RichData, r, shape, change, first, second, desc)
+        # ---- longer random histories on one container
+        for hi in range(ctx.pick(12, 2000)):
             k += 1
             if not ctx.mine(k):
                 continue
             sub = ctx.subseed(rng)
             r = np.random.default_rng(sub)
-            container = ['array', 'RichData'][k % 2]
-            f32 = (k % 13 == 7)
-            dx = [1.0, 0.1, 5.5][k % 3]
-            desc = {'wl': 'otf', 'shape': shape, 'psf': cls, 'input': container, 'dx': dx, 'seed': sub,
-                    'dtype': 'float32' if f32 else 'float64',
-                    'class': f'otf:{shape_class(shape)}:{cls}:{container}' + (':f32' if f32 else '')}
-            ctx.case(desc, nontrivial=shape[0] * shape[1] >= 2)
-            p, _ = make_psf(cls, shape, r)
-            if f32:
-                p = p.astype(np.float32)
-            rt = rtol_for(p)
-            n0, n1 = shape
-            c0, c1 = n0 // 2, n1 // 2
+            shape = shapes[int(r.integers(len(shapes)))]
+            steps = int(r.integers(3, ctx.pick(7, 16)))
+            desc = {'wl': 'otf-history-long', 'shape': shape, 'steps': steps, 'seed': sub, 'class': 'history:otf:random-sequence'}
+            ctx.case(desc)
+            with ctx.guard('C15/otf/history/random-sequence', desc):
+                dx = float(r.uniform(0.1, 4))
+                p = r.random(shape)
+                c = RichData(p.copy(), dx, None)
+                for s in range(steps):
+                    w = OTF_FNS[int(r.integers(3))]
+                    ch = OTF_CHANGES[int(r.integers(4))]
+                    got = np.array(fns[w](c).data)
+                    cur = np.array(c.data)
+                    if w != 'ptf':
+                        want = np.array(fns[w](cur.copy(), c.dx).data)
+                        _law(ctx, 'history.otf-container', got, want, 'C15/otf/history/random-sequence/container-vs-array',
+                             'after a history of calls and data changes on one container, the container form differs from '
+                             'the array form of its current data', dict(desc, step=s, fn=w), RT, 1.0)
+                    _apply_change(c, ch, r, conv)
+        # ---- conv: operands edited in place / other operands of the same shape between calls
+        for shape in shapes:
+            for change in ('psf-inplace-to-impulse', 'psf-inplace-edit', 'obj-inplace-edit', 'other-psf-same-shape', 'other-shape-between'):
+                k += 1
+                if not ctx.mine(k):
+                    continue
+                sub = ctx.subseed(rng)
+                r = np.random.default_rng(sub)
+                desc = {'wl': 'conv-history', 'shape': shape, 'change': change, 'seed': sub, 'class': f'history:conv:{change}'}
+                ctx.case(desc)
+                with ctx.guard(f'C15/conv/history/{change}', desc):
+                    _conv_history(ctx, conv, r, shape, change, desc)
+        # ---- apply_transfer_functions: one shape, the sampling / convention / grid form changes from call to call
+        for shape in shapes:
+            for rep in range(ctx.pick(1, 3)):
+                k += 1
+                if not ctx.mine(k):
+                    continue
+                sub = ctx.subseed(rng)
+                r = np.random.default_rng(sub)
+                pool = callable_pool(r, 1.0)
+                steps = ctx.pick(6, 12)
+                for s in range(steps):
+                    cls = ['callables', 'prysm-fts', 'linear-phase-callable', 'mixed', 'ones-callable', 'arrays-hermitian'][int(r.integers(6))]
+                    shift = bool(r.integers(2))
+                    mode = GRID_MODES[int(r.integers(3))] if cls != 'arrays-hermitian' else 'dx'
+                    dx = [1.0, 0.25, 3.7, 0.5][int(r.integers(4))]
+                    desc = {'wl': 'atf-history', 'shape': shape, 'step': s, 'tf': cls, 'shift': shift, 'grid': mode, 'dx': dx,
+                            'seed': sub, 'class': f'history:atf:{cls}:shift={shift}:{mode}'}
+                    ctx.case(desc)
+                    ctx.observe('history.atf')
+                    with ctx.guard(f'C15/atf/history/shift={shift}/{cls}', desc):
+                        _atf_case(ctx, atf, r, shape, cls, shift, mode, dx, desc, pool=pool)
+
+
+def _apply_change(c, change, r, conv):
+    shape = c.data.shape
+    if change == 'reassign-data':
+        c.data = r.random(shape)
+    elif change == 'inplace-overwrite':
+        c.data[...] = r.random(shape)
+    elif change == 'inplace-edit-region':
+        c.data[: shape[0] // 2 + 1, : shape[1] // 2 + 1] *= 0.2
+        c.data[-1, -1] += 1.0
+    elif change == 'conv-stored-back':
+        pix = np.zeros(shape)
+        c0, c1 = shape[0] // 2, shape[1] // 2
+        pix[max(c0 - 1, 0): c0 + 2, max(c1 - 1, 0): c1 + 1] = 1.0
+        c.data = conv(c.data, pix)
+    else:
+        raise ValueError(change)
+
+
+def _otf_history(ctx, fns, conv, RichData, r, shape, change, first, second, desc):
+    dx = float(r.uniform(0.1, 4))
+    p0 = r.random(shape)
+    key = f'C15/otf/history/{change}'
+    if change == 'array-form-inplace-edit':
+        p = p0.copy()
+        fns[first](p, dx)
+        p[...] = r.random(shape)
+        p[0, 0] += 2.0
+        cur = p.copy()
+        got = np.array(fns[second](p, dx).data)
+        fresh = np.array(fns[second](cur.copy(), dx).data)
+        ctx.observe('history.otf-container')
+        if second == 'ptf':
+            m = np.array(fns['mtf'](cur.copy(), dx).data)
+            got, fresh = m * np.exp(1j * got), m * np.exp(1j * fresh)
+        _law(ctx, 'history.otf-array', got, fresh, key + '/same-array-vs-fresh-copy',
+             f'{second}_from_psf(psf, dx) on an array that was edited in place after an earlier {first}_from_psf call '
+             'differs from the result for a fresh copy of the same data', desc, RT, 1.0)
+        return
+    c = RichData(p0.copy(), dx, None)
+    fns[first](c)
+    if change == 'copy-of-used-container':
+        c = c.copy()
+        c.data = r.random(shape)
+    elif change == 'reassign-other-shape':
+        c.data = r.random(shape[::-1] if shape[0] != shape[1] else (shape[0] + 1, shape[1]))
+    elif change == 'data-and-dx':
+        c.data = r.random(shape)
+        c.dx = dx * 1.5
+    else:
+        _apply_change(c, change, r, conv)
+    cur = np.array(c.data)
+    got_all = {second: np.array(fns[second](c).data)}
+    # the later call is judged: container form == array form of the data it holds now == a fresh container
+    arr = np.array(fns[second](cur.copy(), c.dx).data)
+    fresh = np.array(fns[second](RichData(cur.copy(), c.dx, None)).data)
+    got = got_all[second]
+    if second == 'ptf':
+        m = np.array(fns['mtf'](cur.copy(), c.dx).data)       # compare phasors weighted by the MTF (phase undefined at nulls)
+        if got.shape == m.shape:
+            got, arr, fresh = m * np.exp(1j * got), m * np.exp(1j * arr), m * np.exp(1j * fresh)
+    _law(ctx, 'history.otf-container', got, arr, key,
+         f'{second}_from_psf(container) after a {first}_from_psf call and a change of the container ({change}) differs from '
+         f'{second}_from_psf(container.data, container.dx)', desc, RT, 1.0)
+    _law(ctx, 'history.otf-container', got, fresh, key,
+         f'{second}_from_psf(container) after a {first}_from_psf call and a change of the container ({change}) differs from '
+         'the result for a fresh container holding the same data', desc, RT, 1.0)
+    # and the full set of the statement's laws through the used container
+    m = np.array(fns['mtf'](c).data)
+    O = np.array(fns['otf'](c).data)
+    ph = np.array(fns['ptf'](c).data)
+    _mtf_validity(ctx, m, O, ph, cur.shape, desc, False)
+    ma = np.array(fns['mtf'](cur.copy(), c.dx).data)
+    _law(ctx, 'otf.abs-vs-mtf', np.abs(O), ma, key,
+         '|OTF(container)| != MTF(container.data) after the container changed', desc, RT, 1.0)
+
+
+def _conv_history(ctx, conv, r, shape, change, desc):
+    a = r.standard_normal(shape)
+    h = r.random(shape)
+    n0, n1 = shape
+    scale = float(np.abs(a).sum()) * 2.0
+    conv(a, h)
+    if change == 'psf-inplace-to-impulse':
+        i0, i1 = int(r.integers(n0)), int(r.integers(n1))
+        h[...] = 0
+        h[i0, i1] = 1.0
+        k0, k1 = i0 - n0 // 2, i1 - n1 // 2
+        which = 'impulse-identity' if (k0, k1) == (0, 0) else 'impulse-translation'
+        _law(ctx, 'history.conv', conv(a, h), np.roll(a, (k0, k1), axis=(0, 1)), f'C15/conv/history/{change}/{which}',
+             'conv(a, h) after h was overwritten in place with a unit impulse does not translate a', desc, RT, float(np.abs(a).max()))
+        return
+    if change == 'psf-inplace-edit':
+        h[: n0 // 2 + 1] *= 0.3
+        h[-1, -1] += 1
+    elif change == 'obj-inplace-edit':
+        a[...] = r.standard_normal(shape)
+    elif change == 'other-psf-same-shape':
+        h = r.random(shape)
+    elif change == 'other-shape-between':
+        s2 = (n0 + 1, n1) if n0 != n1 + 1 else (n0 + 2, n1)
+        conv(r.standard_normal(s2), r.random(s2))
+        conv(r.standard_normal(shape[::-1]), r.random(shape[::-1]))
+    got = conv(a, h)
+    want = conv(a.copy(), h.copy())
+    _law(ctx, 'history.conv', got, want, f'C15/conv/history/{change}/vs-fresh-copies',
+         'conv(a, h) after an earlier call and a change of the operands differs from conv of fresh copies', desc, RT, scale)
+    ic = conv(h, a)
+    _law(ctx, 'conv.commutativity', ic, got, 'C15/conv/commutativity', 'conv(a,h) != conv(h,a) (after a history)', desc, RT, scale)
+
+
+# ------------------------------------------------------------------------------------------- class C: configuration
+PREC_SHAPES = [(2, 3), (5, 5), (6, 9), (8, 8), (13, 10), (16, 16), (21, 17)]
+
+
+def _run_precision(ctx):
+    """prysm.conf.config.precision = 32 with float32 and float64 data (float32 tolerances), then the same routines on the
+    same grids under precision 64 judged at full tolerance (a cache keyed without the precision would poison them)."""
+    from prysm import otf
+    from prysm.convolution import apply_transfer_functions as atf, conv
+    rng = ctx.rng('c15-precision')
+    shapes = list(PREC_SHAPES)
+    for _ in range(ctx.pick(2, 260)):
+        shapes.append((int(rng.integers(2, ctx.pick(24, 64) + 1)), int(rng.integers(2, ctx.pick(24, 64) + 1))))
+    t32 = Tagged(ctx, '/precision=32')
+    t64 = Tagged(ctx, '/after-precision-32')
+    classes = [c for c in PSF_CLASSES if c != 'rand-signed']
+    k = -1
+    for shape in shapes:
+        k += 1
+        if not ctx.mine(k):
+            continue
+        sub = ctx.subseed(rng)
+        dx = 0.37 + 0.01 * (k % 5)            # samplings no other workload uses
+        for phase, tctx, dtypes in (('precision=32', t32, ('float32', 'float64')), ('after-precision-32', t64, ('float64',))):
+            for dtype in dtypes:
+                r = np.random.default_rng(sub)
+                desc = {'wl': 'precision', 'phase': phase, 'shape': shape, 'dtype': dtype, 'dx': dx, 'seed': sub,
+                        'class': f'{phase}:{dtype}:{shape_class(shape)}'}
+                ctx.case(desc, nontrivial=True)
+                ctx.observe('precision32.cases' if phase == 'precision=32' else 'precision32-then-64.cases')
+                ctxm = precision(32) if phase == 'precision=32' else _null()
+                with ctxm, driving(tctx, wl=phase):
+                    with tctx.guard(f'C15/conv/{par2(shape)}', desc):
+                        for cls in ('rand-nonneg', 'delta-anywhere'):
+                            _conv_laws(tctx, conv, r, shape, cls, desc, dtype)
+                    for cls in ('arrays-hermitian', 'callables', 'prysm-fts', 'mixed', 'ones-callable', 'linear-phase-callable',
+                                'linear-phase-array', 'ones-array'):
+                        for shift in (False, True):
+                            d2 = dict(desc, tf=cls, shift=shift)
+                            with tctx.guard(f'C15/atf/shift={shift}/{cls}', d2):
+                                _atf_case(tctx, atf, r, shape, cls, shift, 'dx', dx, d2, dtype=dtype)
+                    with tctx.guard(f'C15/otf/{par2(shape)}', desc):
+                        for ci, cls in enumerate(classes):
+                            _otf_laws(tctx, otf, r, shape, cls, ['array', 'RichData'][ci % 2], dx, desc, dtype)
+
+
+class _null:
+    def __enter__(self):
+        return None
+
+    def __exit__(self, *a):
+        return False
+
+
+# ------------------------------------------------------------------------------------------- class D: numeric regimes
+def _run_regimes(ctx):
+    """Extreme aspect ratios (1xN, Nx1, 2xN, Nx3, ...) for every routine of the property."""
+    from prysm import otf
+    from prysm.convolution import apply_transfer_functions as atf, conv
+    rng = ctx.rng('c15-regimes')
+    longs = ctx.pick([31, 64, 127, 256], [31, 64, 127, 256, 511, 1024])
+    shorts = [1, 2, 3]
+    shapes = []
+    for n in longs:
+        for m in shorts:
+            if n * m <= 4096:
+                shapes += [(m, n), (n, m)]
+    for _ in range(ctx.pick(0, 260)):
+        n, m = int(rng.integers(100, 1100)), int(rng.integers(1, 4))
+        shapes.append((m, n) if rng.integers(2) else (n, m))
+    classes = [c for c in PSF_CLASSES if c != 'rand-signed']
+    k = -1
+    with driving(ctx, wl='aspect'):
+        for shape in shapes:
+            k += 1
+            if not ctx.mine(k):
+                continue
+            sub = ctx.subseed(rng)
+            r = np.random.default_rng(sub)
+            desc = {'wl': 'aspect', 'shape': shape, 'seed': sub, 'class': f'aspect:{shape_class(shape)}:{min(shape)}xN'}
+            ctx.case(desc)
+            ctx.observe('regime.aspect')
+            with ctx.guard(f'C15/conv/{par2(shape)}', desc):
+                for cls in ('rand-nonneg', 'delta-anywhere', 'gauss-offcentre'):
+                    _conv_laws(ctx, conv, r, shape, cls, desc)
+            for cls in ('arrays-hermitian', 'callables', 'prysm-fts', 'ones-callable', 'linear-phase-callable', 'linear-phase-array'):
+                for shift in (False, True):
+                    mode = GRID_MODES[int(r.integers(3))]
+                    d2 = dict(desc, tf=cls, shift=shift, grid=mode)
+                    with ctx.guard(f'C15/atf/shift={shift}/{cls}', d2):
+                        _atf_case(ctx, atf, r, shape, cls, shift, mode, [1.0, 0.25, 3.7][int(r.integers(3))], d2)
             with ctx.guard(f'C15/otf/{par2(shape)}', desc):
-                if container == 'RichData':
-                    arg = (RichData(p.copy(), dx, None),)
-                else:
-                    arg = (p.copy(), dx)
-                m = np.asarray(otf.mtf_from_psf(*arg).data)
-                O = np.asarray(otf.otf_from_psf(*arg).data)
-                ph = np.asarray(otf.ptf_from_psf(*arg).data)
-                ctx.require('mtf.dc', m.shape == shape and abs(float(m[c0, c1]) - 1.0) <= (1e-5 if f32 else 1e-12), f'C15/mtf/dc-not-1/{par2(shape)}',
-                            'MTF at zero frequency (sample n//2) is not 1', desc, got=float(m[c0, c1]) if m.shape == shape else None)
-                ctx.require('mtf.max', bool(np.nanmax(m) <= 1 + (1e-12 if not f32 else 1e-5)) and not np.isnan(m).any(),
-                            'C15/mtf/exceeds-1', 'MTF of a non-negative PSF exceeds 1 (or is NaN)', desc, got=float(np.nanmax(m)))
-                i0 = (2 * c0 - np.arange(n0)) % n0
-                i1 = (2 * c1 - np.arange(n1)) % n1
-                _law(ctx, 'mtf.point-symmetry', m[np.ix_(i0, i1)], m, f'C15/mtf/point-symmetry/{par2(shape)}',
-                     'MTF(c+k) != MTF(c-k) (indices modulo n)', desc, rt, 1.0)
-                _law(ctx, 'otf.abs-vs-mtf', np.abs(O), m, 'C15/otf/abs-vs-mtf', '|OTF| != MTF', desc, rt, 1.0)
-                # arg OTF == PTF wherever the phase is defined (|OTF| > 1e-6); elsewhere excluded and counted
-                floor = 1e-2 if f32 else 1e-6
-                good = np.abs(O) > floor
-                ctx.skip('otf.arg-vs-ptf: samples with |OTF| <= 1e-6 (1e-2 for float32 input): phase undefined', int((~good).sum()))
-                if ph.shape == O.shape:
-                    _law(ctx, 'otf.arg-vs-ptf', np.exp(1j * ph[good]), (O / np.where(good, np.abs(O), 1))[good], 'C15/otf/arg-vs-ptf',
-                         'arg(OTF) != PTF (modulo 2 pi) where |OTF| is not negligible', desc, 2e-2 if f32 else 1e-6, 1.0)
-                else:
-                    ctx.violation('C15/otf/arg-vs-ptf/shape', 'PTF and OTF have different shapes', desc)
+                for ci, cls in enumerate(classes):
+                    _otf_laws(ctx, otf, r, shape, cls, ['array', 'RichData'][ci % 2], 1.3, desc)
 
 
 def _run_rejections(ctx):
@@ -738,15 +1410,27 @@ def _run_internal(ctx):
         ctx.skip('internal: prysm.x.dm not importable')
         return
     rng = ctx.rng('c15-dm')
-    for n, nact, sep in ((32, 4, 4), (33, 3, 5)):
-        desc = {'wl': 'dm.render', 'n': n, 'Nact': nact, 'sep': sep, 'class': f'internal:dm.render:{parity(n)}'}
-        ctx.case(desc)
-        y, x = np.mgrid[:n, :n] - n // 2
-        ifn = np.exp(-(x * x + y * y) / 6.0)
-        with ctx.guard('C15/internal/dm.render', desc):
-            dm = DM(ifn, Nout=n, Nact=nact, sep=sep)
-            dm.actuators[:] = rng.standard_normal(dm.actuators.shape)
-            dm.render(wfe=False)
+    with driving(ctx, wl='dm.render'):
+        for n, nact, sep in ((32, 4, 4), (33, 3, 5)):
+            desc = {'wl': 'dm.render', 'n': n, 'Nact': nact, 'sep': sep, 'class': f'internal:dm.render:{parity(n)}'}
+            ctx.case(desc)
+            y, x = np.mgrid[:n, :n] - n // 2
+            ifn = np.exp(-(x * x + y * y) / 6.0)
+            with ctx.guard('C15/internal/dm.render', desc):
+                dm = DM(ifn, Nout=n, Nact=nact, sep=sep)
+                dm.actuators[:] = rng.standard_normal(dm.actuators.shape)
+                dm.render(wfe=False)
+                dm.actuators[:] = rng.standard_normal(dm.actuators.shape)      # same DM object, second render
+                dm.render(wfe=False)
+
+
+def install_monitors(ctx):
+    """For vp/pytest_monitors.py: attach the call-level contracts to the repository's own test traffic."""
+    global CTX
+    CTX = ctx
+    WL.clear()
+    WL['wl'] = 'pytest'
+    install()
 
 
 def replay(ctx, rec):
